@@ -6,9 +6,9 @@
    A node whose OUTBOUND stream to a still-linked peer died forgets what that peer announced (handleDeadPeers ->
    clearPeerFromTopicsState) and the peer, whose own stream is intact, has no reason to re-announce: `lost` tracks
    exactly that set so that the known non-convergence (section 5, D12) gets d12 = TRUE and anything else does not.
-   The READER of the stream that died is re-taught by the writer's respawned stream (hello); in the code as found that
-   hello can be overtaken by the late ClosedStream of the old stream (comm.go handleNewStream's deferred cleanup, finding C05-LATE-CLOSEDSTREAM):
-   `racy` tracks what the reader may have lost that way (a rare schedule), reported with d18 = TRUE. *)
+   The READER of the stream that died is re-taught by the writer's respawned stream (hello); before fix D19 (a3fad9c) that
+   hello could be overtaken by the late ClosedStream of the old stream (comm.go handleNewStream's deferred cleanup, D19, fixed):
+   `racy` tracks what the reader may have lost that way (a rare schedule); d18 = TRUE labels a recurrence (no longer a known finding: it is a VIOLATION). *)
 EXTENDS Naturals, Sequences, FiniteSets, TLC, Json
 
 Trace == ndJsonDeserialize("trace.ndjson")
